@@ -352,13 +352,12 @@ def data_grid(arr, spacing=None, medium_index=None, illum_wavelen=None,
 
     if np.isscalar(spacing):
         spacing = np.repeat(spacing, 2)
-    if np.isscalar(z) and (len(arr) > 1 or arr.ndim == 2):
-        arr = np.expand_dims(arr, axis=0)
-    coords = make_coords(arr.shape, spacing, z)
     if extra_dims is None:
         extra_dims = {}
-    else:
-        coords.update(extra_dims)
+    if np.isscalar(z) and arr.ndim == 2 + len(extra_dims):
+        arr = np.expand_dims(arr, axis=0)
+    coords = make_coords(arr.shape, spacing, z)
+    coords.update(extra_dims)
     dims = ['z', 'x', 'y'] + list(extra_dims.keys())
     out = xr.DataArray(arr, dims=dims,  coords=coords, name=name)
     out = update_metadata(
